@@ -1088,6 +1088,10 @@ class Wavefront:
             new wavefront, [field at fpm, field after fpm]
 
         """
+        if isinstance(fpm, Wavefront) and fpm_dx is None:
+            # the planes returned with return_more are labelled with the mask's own sampling
+            fpm_dx = fpm.dx
+
         pak = to_fpm_and_back(self.data, dx=self.dx, wavelength=self.wavelength,
                               efl=efl, fpm=fpm, fpm_dx=fpm_dx, method=method,
                               shift=shift, return_more=return_more)
